@@ -65,7 +65,7 @@ def run(tier, seed):
              "(let ((n 0)) (dotimes (i 3) (setq n (+ n i)) (setq n (* n 2))) n)", "(funcall (lambda (x y) (setq x (+ x y)) (list x y)) 1 2)",
              "(when (< 1 2) 'a '(1 2))", "(unless nil 1 '(b . c))", "(typecase 5 (string 1) (fixnum 2) (t 3))", "(and 1 (car '(2)) '(1))", "(or nil nil '(3) 4)",
              "(do ((i 0 (1+ i)) (a 0 (+ a i))) ((> i 3) a) (setq a (+ a 1)))", "(let* ((x 1) (y (+ x 1))) (list x y) (* x y 7))", "(prog1 '(1) 2 3)",
-             "(if (> 2 1) '(a \"s\") '(b c))", "(progn 1 '(2 3))", "(block b (return-from b '(x)) 2)", "(dolist (e '(1 2) 'done) (list e))",
+             "(if (> 2 1) '(a \"s\") '(b c))", "(progn 1 '(2 3))", "(block b (return-from b '(x)) 2)", "(dolist (el '(1 2) 'done) (list el))",
              "(multiple-value-bind (q r) (floor 7 2) (list q r) (+ q r))", "(car '(1 2))", "(+ 1 (* 2 3))"]
     objs = objs + [{"id": len(objs) + 1 + i, "call": c} for i, c in enumerate(CALLS)]
 
